@@ -15,6 +15,7 @@ type EngineGenOpts struct {
 	Ops      int  // approximate number of operations
 	FixedIO  int  // -1: draw, else force this FileIOType
 	HostileCaller bool
+	Collide       bool // some scenarios stage keys whose XXH64 hashes collide
 	HostileSome   bool // a third of the scenarios are run by the hostile caller (buffers reused and overwritten after every call)
 	MergeHeavy    bool // several merges per scenario, each followed by restarts (adoption, second restart), small files
 	RacingMerge   bool // with MergeHeavy: some merges run with Put / Delete calls of another client between the scan steps
@@ -601,6 +602,8 @@ func init() {
 				o.HostileCaller = true
 			case "hostilesome":
 				o.HostileSome = true
+			case "collide":
+				o.Collide = true
 			case "mergeheavy":
 				o.MergeHeavy = true
 				o.Merges = true
@@ -614,6 +617,8 @@ func init() {
 			var sc []string
 			if o.BackupCycle && r.Chance(1, 4) {
 				sc = GenBackupCycle(r, o, h)
+			} else if o.Collide && r.Chance(1, 6) {
+				sc = GenCollideScript(r, o, h)
 			} else {
 				sc = GenEngineScript(r, o, h)
 			}
